@@ -83,7 +83,13 @@ def _machine(case, init, s, o, cap, thr):
 
     sw = case["sw"]
     C = len(init["w"])
-    m = GMMMachine(C, update_means=bool(sw[0]), update_variances=bool(sw[1]), update_weights=bool(sw[2]),
+    B = bool
+    if (sum(sw) + len(init["w"]) + (0 if cap is None else int(cap))) % 2:
+        # settings as NumPy scalars (what an HDF5 round trip, np.arange or a parameter grid hands over)
+        B = np.bool_
+        cap = None if cap is None else np.int64(cap)
+        thr = None if thr is None else np.float64(thr)
+    m = GMMMachine(C, update_means=B(sw[0]), update_variances=B(sw[1]), update_weights=B(sw[2]),
                    max_fitting_steps=cap, convergence_threshold=thr, weights=np.array(init["w"], float))
     m.means = np.array(init["mu"], float) * s + o
     if case["floor"] == "half":
